@@ -62,6 +62,11 @@ EXTRA = {
     'C03-compressor-cached-on-websocket': ['C17', 'C06'],
     'C07-session-recycled-ready-not-reset': ['C17', 'C16'],
     'C07-regular-skipped-while-readable': ['C15'],
+    'C12-sent-close-property-decode-raises-before-flag': ['C08'],
+    'C12-state-local-across-reconnect': ['C17'],
+    'C14-close-validation-in-finally-sets-closing': ['C08', 'C03'],
+    'C10-headers-mutable-default-shared': ['C17'],
+    'C09-known-address-cache-skips-other-addresses': ['C17'],
 }
 
 
